@@ -253,11 +253,22 @@ func svRun(in []byte) (interface{}, error) {
 			node := &slot.SyncNode{Id: round, Source: addrs[0], Slaves: []string{addrs[1], addrs[2]}, Target: []string{"127.0.0.1:1"}, SlotLeftBoundary: 0, SlotRightBoundary: 100}
 			ds := dbSync.VerifNewDbSyncer(node, false, "?", -1, 0, "ckpt", 4)
 			master := 0
-			for step, next := range []int{1 + round%2, 0, 2 - round%2} {
+			// each step is one restart of Sync(): its retry accounting, then the re-discovery.  Three restarts within the hour
+			// (the fourth would stop the tool), then a quiet period of two hours and two more restarts
+			for step, next := range []int{1 + round%2, 0, 2 - round%2, 0, 1 + round%2} {
 				srv[master].SetRole("slave")
 				srv[next].SetRole("master")
 				master = next
-				ab, pan := runAbortableOwn(func() { ds.VerifUpdateSlotTopology() })
+				if step == 3 {
+					ds.VerifAgeLastRetry(2 * time.Hour)
+				}
+				ab, pan := runAbortableOwn(func() {
+					if round%3 == 2 {
+						ds.VerifUpdateSlotTopology() // the step alone
+					} else {
+						ds.VerifRestartPrefix()
+					}
+				})
 				got := ds.VerifNode()
 				want := []string{}
 				for i, a := range addrs {
